@@ -58,6 +58,12 @@ theorem integer_token_int {N : Nat} {t : Token} (h : TokOK N t) (hk : t.kind = .
     pyInt t.value ≠ none :=
   pyInt_tok h (.inr hk)
 
+/-- what `parse_int` hands to `int()` since the `fix:` commit 6f76b47 — the sign and the
+    significant digits (`intLiteral`) — is in `int()`'s domain for every NUMBER and INTEGER token -/
+theorem int_literal_in_domain {N : Nat} {t : Token} (h : TokOK N t)
+    (hk : t.kind = .number ∨ t.kind = .integer) : pyInt (intLiteral t.value) ≠ none :=
+  pyInt_intLiteral (intLit_tok h hk)
+
 theorem char_token_unescapes {N : Nat} {t : Token} (h : TokOK N t) (hk : t.kind = .char) :
     (∃ c, Unescape.unescape (stripQuotes t.value) = .ok [c]) ∨
       Unescape.unescape (stripQuotes t.value) = .error .range := by
